@@ -1425,8 +1425,11 @@ HTInew_dd_block(filerec_t *file_rec)
     list[0].blk    = block;
     HDmemfill(&list[1], &list[0], sizeof(dd_t), (uint32)ndds - 1);
 
-    if (file_rec->cache != 0) { /* if we are caching, wait to update previous DD block */
-        uint8 *tbuf;            /* temporary buffer */
+    { /* write the empty DD list of the new block to the file in either mode: without
+         descriptor caching the header has just been written and the list follows it;
+         leaving the list unwritten stored all-zero descriptors that made the file
+         unreadable after reopen */
+        uint8 *tbuf; /* temporary buffer */
 
         tbuf = (uint8 *)malloc((size_t)(ndds * DD_SZ));
         if (tbuf == (uint8 *)NULL)
